@@ -18,6 +18,21 @@ func init() {
 	engine.RegisterSignature("c15-int-literal-beyond-2p53", sigIntLiteral)
 	engine.RegisterSignature("c15-export-same-kind-different-type", sigExportTypes)
 	engine.RegisterSignature("c15-call-undefined-this-native", sigCallUndefinedThis)
+	engine.RegisterSignature("c15-non-ascii-exported-field-hidden", func(m *engine.Mismatch) bool {
+		// struct{ Éclair int; Ωmega string }: the fields are absent from every script view, reads give undefined, writes do not reach Go
+		if !strings.Contains(m.Aux["value"], "non-ASCII capitals") {
+			return false
+		}
+		switch c := m.Aux["component"]; {
+		case c == "js.view" || c == "js.JSON":
+			return strings.HasSuffix(m.Observed, "={}")
+		case strings.HasPrefix(c, "read "):
+			return strings.HasSuffix(m.Observed, "=u")
+		case strings.HasPrefix(c, "write "):
+			return strings.Contains(m.Observed, "{Éclair: 3, Ωmega: \"w\"}")
+		}
+		return false
+	})
 	engine.RegisterSignature("c15-set-readonly-name-silent", func(m *engine.Mismatch) bool {
 		// Set on a read-only global binding returns nil and stores nothing
 		switch m.Aux["name"] {
